@@ -24,6 +24,11 @@ CLAIMED["C02"] = dict(
   note="Trusted: A-ENGINE, A-SMT, A-INT, A-REAL (no rounding; signed zero not modelled), determinism of rayIntersectsSegment/pointOnSegment as functions of their arguments (definitional abstraction rayRes/posRes), 'odd crossing number = inside' (mathematics). Not decided: the lower-vertex height case of rayIntersectsSegment (needs the size of the Nextafter step, A-NUDGE); harmlessness of the bounding-box skip is mirrored in the spec (considered), not proved separately; MultiLineString.Within and Polygon.Within (reflect.DeepEqual) are not under contract; *Bounds as polygonal argument gets safety only.",
   design="DESIGN.md §3 C02")
 
+CLAIMED["C03"] = dict(
+  text="Deductive proof (govc, real arithmetic): signedarea and op.area equal the shoelace sum (closing term + prefix sum) / 2; area() returns +-|shoelace|/2 or 0 and exactly |shoelace|/2 for a single ring, never panics and leaves its inputs alone (the in-place removals act on fresh copies); Polygon.Area of a single ring is |shoelace|/2, MultiPolygon.Area is non-negative; Polygon.Centroid of closed rings equals (sum of ring moment/(6 a_r) * a_r) / (sum a_r) with a_r the signed ring area, skips empty rings and never writes into the caller's rings; MultiPolygon.Centroid weights, per ring, the winding-independent ring centroid moment/(6*signed area) by area(); LineString/MultiLineString Length are the sums of segment lengths, LineString.Distance is the minimum over segments of the closed-form point-segment distance that distPointToSegment is proved to compute; Point.Buffer's k-th vertex is p + radius*(cos,sin)(k*2pi/n), with panics exactly for n<3 or radius<0; Bounds.Area/Centroid.",
+  note="Trusted: A-ENGINE, A-SMT, A-INT, A-REAL (no rounding: the relative-tolerance clause for arbitrary floats is not decided); 'shoelace = area', 'first moments/(6A) = centroid' and 'three-case projection formula = minimum distance' are mathematics (the latter stated as two axioms); sin/cos uninterpreted. Not decided: hole detection semantics of area() beyond sign/magnitude, invariance under per-ring rotation/reversal (orbit lemmas not mechanised), op.Centroid/op.Distance.",
+  design="DESIGN.md §3 C03")
+
 NA = {}
 
 def main():
